@@ -2,6 +2,7 @@ package checks
 
 import (
 	"fmt"
+	"sort"
 	"strings"
 	"time"
 
@@ -469,6 +470,34 @@ func c12WordOps(rep *report.Report) {
 		if err := w.materialise(ctx, ds); err != nil {
 			rep.Violation("C12|materialise", err.Error(), nil)
 			return errSkip
+		}
+		// `not (P)` is the negation of P for every kind of atom: the two answers partition the entities
+		all, _, _ := w.people.QueryIds(ctx.Tx(), "true")
+		negBases := append([]string{}, bases...)
+		negBases = append(negBases, `anyOf(roles) != "a"`, `allOf(roles) = "a"`, `anyOf(roles) != "x"`, `allOf(roles) != "a"`, `anyOf(reports.s) != "B"`, `allOf(reports.s) != "B"`,
+			`anyOf(roles) in ["a", "x"]`, `anyOf(roles) contains "a"`, `allOf(roles) contains "x"`, `not isEmpty(roles)`, `boss.s = "a"`, `boss = null`, `tags.k = "a"`,
+			`isEmpty(from reports where s = "B")`, `count(from reports where true) > 0`, `i > 3 and not (b)`, `not (s = "a") or b = true`)
+		for _, b := range negBases {
+			if strings.Contains(b, "sort by") || strings.Contains(b, " skip ") || strings.Contains(b, " limit ") {
+				continue
+			}
+			rep.Count("evaluations", 1)
+			rep.Count("compared_pairs", 1)
+			rep.Count("negations", 1)
+			pos, _, err1 := w.people.QueryIds(ctx.Tx(), b)
+			neg, _, err2 := w.people.QueryIds(ctx.Tx(), "not ("+b+")")
+			neg2, _, err3 := w.people.QueryIds(ctx.Tx(), "NOT  ( ( "+b+" ) )")
+			if err1 != nil || err2 != nil || err3 != nil {
+				rep.Violation("C12|negation-rejected|"+b, fmt.Sprintf("%q / its negation rejected: %v / %v / %v", b, err1, err2, err3), map[string]interface{}{"query": b})
+				continue
+			}
+			union := append(append([]string{}, pos...), neg...)
+			sort.Strings(union)
+			if strings.Join(union, ",") != strings.Join(all, ",") || strings.Join(neg, ",") != strings.Join(neg2, ",") {
+				rep.Violation("C12|not-is-not-the-negation|"+b, fmt.Sprintf("%q returns %v, not (%s) returns %v (other spelling: %v); together they must be exactly %v", b, pos, b, neg, neg2, all), map[string]interface{}{"query": b})
+			} else {
+				rep.Outcome("negation-is-complement")
+			}
 		}
 		for _, v := range variants {
 			if v.alt == v.base {
